@@ -896,6 +896,7 @@ EXPECTED_DISPATCHER_SHAPE = {'add_task': 'with(lock){ R:queue append() R:queue_c
 
 
 # A schedule (found by seeded random search, RandomPolicy(Random(0), stay=0.9)) under which the scenario
-# checks.C04.f18_scenario() shows finding F18 on the unchanged tree: the worker's send_continue() and the
-# I/O thread's unlocked _flush_some send the same 151 bytes.
+# checks.C04.f18_scenario() showed finding F18 on the tree before 8bcf05e: the worker's send_continue() and the
+# I/O thread's unlocked _flush_some sent the same 151 bytes.  On the repaired tree the same choices are clean
+# (the I/O thread's try-acquire fails); the check re-runs them every time as a regression.
 F18_CHOICES = [0, 0, 0, 0, 2, 2, 1, 1, 1, 0, 0, 0, 0, 0, 0, 0, 0, 0, 0, 0, 0, 0, 0, 0, 0, 0, 0, 0, 0, 0, 0, 0, 0, 0, 0, 0, 0, 1, 0, 0, 1, 1, 1, 1, 1, 1, 1, 1, 1, 1, 1, 1, 1, 1, 0, 0, 0, 0, 0, 0, 0, 0, 0, 0, 0, 0, 0, 0, 0, 0, 0, 0, 0, 0, 0, 0, 0, 0, 1, 1, 1, 1, 1, 1, 1, 1, 1, 1, 1, 1, 1, 1, 1, 1, 1, 1, 0, 0, 0, 0, 0, 0, 0, 0, 0, 0, 0, 0, 0, 0, 0, 0, 0, 0, 0, 0, 0, 0, 0, 0, 0, 0, 0, 0, 1, 1, 0, 0, 0, 0, 0, 0, 0, 0, 0, 0, 0, 0, 1, 1, 1, 1, 1, 1, 1, 1, 1, 1, 1, 1, 0, 0, 0, 0, 0, 0]
